@@ -20,6 +20,11 @@ CLAIMS = {
     "C03": ("other", "Exactly-one-of {free, keep} per scanned element on every path, compaction count, full-range loops, retire() push/scan "
             "coupling, help_scan moves and clears, destructor drains of every record (HP and DHP). Cross-thread exactly-once is not decided.",
             "static analysis: path tables and def-use rules over clang-extracted CFGs", "DESIGN.md §4 C03"),
+    "C17": ("other", "Hash-independent element conservation on every CFG path of the relocation code: CuckooSet::resize and relocate insert "
+            "each moved element exactly once (known finding D5: the all-probe-sets-full path of resize drops the element), probe-set positions "
+            "are used before anything mutates the probe sets, StripedSet::internal_resize moves every element of every old bucket once into "
+            "bucket(hash(element)) of the new table and frees the old table afterwards, every bucket adapter/policy inserts the moved item "
+            "exactly once. SplitList/Feldman growth is not covered here.", PATHS, "DESIGN.md §4 C17"),
     "C25": ("proof", "For ALL inputs (one fully symbolic integer, bit-provenance abstract interpretation): every bit-reversal routine equals the "
             "reference reversal; number_splitter::cut for every (offset,count); affine proof that safe_cut clamps to rest_count(); cursor reads "
             "are bounds-justified; no implicitly widened narrow shift. Not decided: asm MSB/LSB, popcounts, log2*, looped cut bodies.",
